@@ -1,0 +1,126 @@
+// Copyright 2026 The Jujutsu Authors
+//
+// Licensed under the Apache License, Version 2.0 (the "License");
+// you may not use this file except in compliance with the License.
+// You may obtain a copy of the License at
+//
+// https://www.apache.org/licenses/LICENSE-2.0
+//
+// Unless required by applicable law or agreed to in writing, software
+// distributed under the License is distributed on an "AS IS" BASIS,
+// WITHOUT WARRANTIES OR CONDITIONS OF ANY KIND, either express or implied.
+// See the License for the specific language governing permissions and
+// limitations under the License.
+
+//! Observation points for the external verification harness.
+//!
+//! This module only exists when the crate is built with
+//! `--cfg jj_vcs_jj_verif`. A point does nothing unless a callback has been
+//! registered with [`set_callback()`] or one of the `JJ_VERIF_*` environment
+//! variables is set:
+//!
+//! * `JJ_VERIF_TRACE=<file>`: append one line `<n>\t<kind>\t<detail>` per
+//!   point, where `<n>` is the number of durable points reached so far;
+//! * `JJ_VERIF_CRASH_AT=<n>`: abort the process right before the `n`-th durable
+//!   effect (1-based) would be performed.
+
+#![expect(missing_docs)]
+
+use std::fs::OpenOptions;
+use std::io::Write as _;
+use std::path::PathBuf;
+use std::sync::Arc;
+use std::sync::OnceLock;
+use std::sync::RwLock;
+use std::sync::atomic::AtomicU64;
+use std::sync::atomic::Ordering;
+
+/// Returned by a callback to let the code at the point proceed normally.
+pub const CONTINUE: u32 = 0;
+/// Returned by a callback to ask the code at the point to skip its effect
+/// (only honored by points that document it, e.g. `lock.acquire`).
+pub const SKIP: u32 = 1;
+
+pub type Callback = dyn Fn(&str, &str) -> u32 + Send + Sync + 'static;
+
+static CALLBACK: RwLock<Option<Arc<Callback>>> = RwLock::new(None);
+
+/// Registers (or clears) the process-wide callback invoked at every point.
+pub fn set_callback(callback: Option<Arc<Callback>>) {
+    *CALLBACK.write().unwrap() = callback;
+}
+
+/// Point kinds that stand right before an effect that survives the process.
+pub fn is_durable(kind: &str) -> bool {
+    matches!(
+        kind,
+        "durable" | "op_heads.add" | "op_heads.remove" | "table.add_head" | "table.remove_head"
+    )
+}
+
+struct EnvConfig {
+    crash_at: Option<u64>,
+    trace: Option<PathBuf>,
+}
+
+static ENV_CONFIG: OnceLock<EnvConfig> = OnceLock::new();
+static DURABLE_COUNT: AtomicU64 = AtomicU64::new(0);
+static LOCK_COUNT: AtomicU64 = AtomicU64::new(0);
+
+fn env_point(kind: &str, detail: &str) -> u32 {
+    let config = ENV_CONFIG.get_or_init(|| EnvConfig {
+        crash_at: std::env::var("JJ_VERIF_CRASH_AT")
+            .ok()
+            .and_then(|value| value.parse().ok()),
+        trace: std::env::var_os("JJ_VERIF_TRACE").map(PathBuf::from),
+    });
+    if config.crash_at.is_none() && config.trace.is_none() {
+        return CONTINUE;
+    }
+    let count = if is_durable(kind) {
+        DURABLE_COUNT.fetch_add(1, Ordering::SeqCst) + 1
+    } else {
+        DURABLE_COUNT.load(Ordering::SeqCst)
+    };
+    let crash = is_durable(kind) && config.crash_at == Some(count);
+    if let Some(path) = &config.trace
+        && let Ok(mut file) = OpenOptions::new().create(true).append(true).open(path)
+    {
+        let detail = detail.replace(['\t', '\n'], " ");
+        let line = if crash {
+            format!("{count}\t{kind}\t{detail}\n{count}\tcrash\t\n")
+        } else {
+            format!("{count}\t{kind}\t{detail}\n")
+        };
+        file.write_all(line.as_bytes()).ok();
+    }
+    if crash {
+        std::process::abort();
+    }
+    CONTINUE
+}
+
+/// Announces that the calling thread is about to perform the step `kind` on
+/// `detail`. A registered callback may block (scheduling), record (tracing)
+/// or never return (crash injection).
+pub fn point(kind: &str, detail: &str) -> u32 {
+    let callback = CALLBACK.read().unwrap().clone();
+    match callback {
+        Some(callback) => callback(kind, detail),
+        None => env_point(kind, detail),
+    }
+}
+
+/// Point `lock.acquire` of `FileLock::lock()`. If the callback answers
+/// [`SKIP`], the lock is taken on a fresh, never contended file name instead,
+/// which models a file system where locking is ineffective.
+pub fn lock_path_hook(path: PathBuf) -> PathBuf {
+    if point("lock.acquire", &path.to_string_lossy()) == SKIP {
+        let n = LOCK_COUNT.fetch_add(1, Ordering::SeqCst);
+        let mut name = path.clone().into_os_string();
+        name.push(format!(".verif-unshared-{}-{n}", std::process::id()));
+        PathBuf::from(name)
+    } else {
+        path
+    }
+}
